@@ -15,7 +15,7 @@ import (
 // the same pair, Get agrees with what was told, no pair is told to two NTEs, and releasing every NTE returns the
 // allocator to empty (no pair stays reserved for nobody).
 func TestVLANConcurrentSameKey(t *testing.T) {
-	rounds := run.Pick(6000, 100000)
+	rounds := run.Pick(6000, 30000)
 	rng := run.Rand("vlan-conc")
 	for r := 0; r < rounds; r++ {
 		v := nexus.NewVLANAllocator(nexus.VLANAllocatorConfig{
